@@ -694,17 +694,33 @@ def _views(ctx, mod):
     return Inliner(mod, ["BoxDispatcher"], known)
 
 
-def _is_table(node) -> bool:
+def _is_table(node, defs=None) -> bool:
+    """self._outstandingRequests, or a local that is bound once, to exactly that (an alias of the same dict: what is popped from it is popped from the table)."""
+    if isinstance(node, ast.Name) and defs and node.id in defs:
+        return _is_table(defs[node.id])
     return isinstance(node, ast.Attribute) and node.attr == "_outstandingRequests" and isinstance(node.value, ast.Name) and node.value.id == "self"
 
 
-def _detach_nodes(g) -> List[int]:
-    """CFG nodes that remove one entry from self._outstandingRequests (pop(key) / del [...])."""
+def _detach_nodes(g, defs=None) -> List[int]:
+    """CFG nodes that remove one entry from self._outstandingRequests (pop(key) / del [...]), also through an alias of the table."""
     def detaches(x):
-        if isinstance(x, ast.Call) and isinstance(x.func, ast.Attribute) and x.func.attr == "pop" and _is_table(x.func.value) and x.args:
+        if isinstance(x, ast.Call) and isinstance(x.func, ast.Attribute) and x.func.attr == "pop" and _is_table(x.func.value, defs) and x.args:
             return True
-        return isinstance(x, ast.Delete) and any(isinstance(t, ast.Subscript) and _is_table(t.value) for t in x.targets)
+        return isinstance(x, ast.Delete) and any(isinstance(t, ast.Subscript) and _is_table(t.value, defs) for t in x.targets)
     return g.find(detaches) + g.ids(lambda n: n.kind == "stmt" and isinstance(n.ast, ast.Delete) and detaches(n.ast))
+
+
+def _table_escapes(f, defs) -> Optional[str]:
+    """The table is handed to code the rule does not follow (an argument of a call, a value stored somewhere, a local re-bound more than once): an
+    absence-based verdict about this function would not be justified."""
+    for n in ast.walk(f):
+        if isinstance(n, ast.Call):
+            for a in list(n.args) + [k.value for k in n.keywords]:
+                if any(_is_table(x, defs) and not isinstance(getattr(x, "_parent", None), ast.Attribute) for x in ast.walk(a)):
+                    return f"passed to {src(n.func)}()"
+        if isinstance(n, ast.Assign) and _is_table(n.value) and not (len(n.targets) == 1 and isinstance(n.targets[0], ast.Name) and defs and n.targets[0].id in defs):
+            return f"stored by `{src(n)}`"
+    return None
 
 
 def _helper_detaches_on_every_path(ctx, cls_methods, name: str) -> Optional[bool]:
@@ -712,8 +728,8 @@ def _helper_detaches_on_every_path(ctx, cls_methods, name: str) -> Optional[bool
     if h is None:
         return None
     g = ctx.cfg(h)
-    d = _detach_nodes(g)
-    from sa.props._lib_g import must_pass as _mp
+    from sa.props._lib_g import must_pass as _mp, single_defs as _sd
+    d = _detach_nodes(g, _sd(h))
     return bool(d) and _mp(g, [g.entry], d) is None
 
 
@@ -736,20 +752,23 @@ def check_structural(ctx, mod):
             for x in walk_local(g.node(n).ast):
                 if isinstance(x, ast.Call) and isinstance(x.func, ast.Attribute) and x.func.attr in ("callback", "errback"):
                     fires.append((n, x))
-        detach = _detach_nodes(g)
+        detach = _detach_nodes(g, defs)
         decided = 0
         for n, call in fires:
             recv = call.func.value
             origin = expand(recv, defs) if isinstance(recv, ast.Name) else recv
-            from_table = any(_is_table(x) for x in ast.walk(origin))
+            from_table = any(_is_table(x, defs) for x in ast.walk(origin))
             via_helper = [x for x in ast.walk(origin) if isinstance(x, ast.Call) and isinstance(x.func, ast.Attribute) and isinstance(x.func.value, ast.Name)
                           and x.func.value.id == "self" and x.func.attr in ms and x.func.attr.startswith("_")]
             cons = f"{q}.{fname} | <pending Deferred detached before it is fired>"
+            if from_table and not detach and _table_escapes(f, defs):
+                ctx.note(f"match/take-before-fire: {fname}: no pop/del recognised and the table is {_table_escapes(f, defs)}; clause left to the bounded rules match/fires-once")
+                continue
             if from_table:
                 decided += 1
                 wit = g.must_precede(detach, [n]) if detach else [g.entry]
                 # a pop inside the very expression that is fired (self._outstandingRequests.pop(k).callback(x)) precedes the call by evaluation order
-                inline_pop = any(isinstance(x, ast.Call) and isinstance(x.func, ast.Attribute) and x.func.attr == "pop" and _is_table(x.func.value) for x in ast.walk(call.func.value))
+                inline_pop = any(isinstance(x, ast.Call) and isinstance(x.func, ast.Attribute) and x.func.attr == "pop" and _is_table(x.func.value, defs) for x in ast.walk(call.func.value))
                 ctx.check(inline_pop or (bool(detach) and wit is None), "match/take-before-fire", cons,
                           "the pending Deferred is fired while still registered in _outstandingRequests: a duplicate answer, or a connection loss inside its callback, fires it a second time",
                           witness=g.describe(wit) if detach and wit else "no pop/del of _outstandingRequests before the fire")
@@ -994,6 +1013,10 @@ def check(ctx):
 
 
 MUTANTS = [
+    Mutant("pending-looked-up-through-a-local-but-never-removed", AMP, "        question = self._outstandingRequests.pop(box[ANSWER])\n", "        waiting = self._outstandingRequests\n        question = waiting[box[ANSWER]]\n",
+           expect_rule="match/take-before-fire"),
+    Mutant("pending-removed-through-a-local-only-after-the-fire", AMP, "        question = self._outstandingRequests.pop(box[ERROR])\n", "        waiting = self._outstandingRequests\n        question = waiting[box[ERROR]]\n",
+           more=[(AMP, "        question.errback(Failure(exc))\n", "        question.errback(Failure(exc))\n        del waiting[box[ERROR]]\n")], expect_rule="match/take-before-fire"),
     Mutant("safe-emit-suppresses-only-protocol-switched", AMP, "        except (ProtocolSwitched, ConnectionLost):\n            pass\n", "        except ProtocolSwitched:\n            pass\n", expect_rule="reply/emit-on-dead-connection"),
     Mutant("safe-emit-suppresses-everything", AMP, "        try:\n            aBox._sendTo(self.boxSender)\n        except (ProtocolSwitched, ConnectionLost):\n            pass\n",
            "        with suppress(Exception):\n            aBox._sendTo(self.boxSender)\n", more=[(AMP, "from functools import partial\n", "from contextlib import suppress\nfrom functools import partial\n")],
@@ -1034,6 +1057,8 @@ MUTANTS = [
 ]
 
 SILENT = [
+    Silent("pending-table-read-into-a-local-before-the-pop", AMP, "        question = self._outstandingRequests.pop(box[ANSWER])\n", "        waiting = self._outstandingRequests\n        question = waiting.pop(box[ANSWER])\n",
+           more=[(AMP, "        question = self._outstandingRequests.pop(box[ERROR])\n", "        waiting = self._outstandingRequests\n        tag = box[ERROR]\n        question = waiting[tag]\n        del waiting[tag]\n")]),
     Silent("safe-emit-with-contextlib-suppress", AMP, "        try:\n            aBox._sendTo(self.boxSender)\n        except (ProtocolSwitched, ConnectionLost):\n            pass\n",
            "        with suppress(ProtocolSwitched, ConnectionLost):\n            aBox._sendTo(self.boxSender)\n", more=[(AMP, "from functools import partial\n", "from contextlib import suppress\nfrom functools import partial\n")]),
     Silent("safe-emit-with-private-contextmanager", AMP, "        try:\n            aBox._sendTo(self.boxSender)\n        except (ProtocolSwitched, ConnectionLost):\n            pass\n",
